@@ -440,14 +440,19 @@ def run_itoa_and_stream(chk, tier):
     for v in sorted(uvals):
         L.append(f'  put("u", 0, {v}ull, au::detail::UIToA<{v}ull>::value);')
     reps = [("int8_t", [65, -1, 0, 127, -128]), ("uint8_t", [65, 255, 0]), ("int16_t", [-32768, 65]), ("uint16_t", [65535]), ("int32_t", [-2147483647, 65]), ("uint32_t", [4294967295]),
-            ("int64_t", [-(2 ** 63 - 1), 65]), ("uint64_t", [2 ** 64 - 1]), ("float", [1.5, -0.25, 65.0]), ("double", [1e100, -2.5, 0.1]), ("long double", [3.0])]
+            ("int64_t", [-(2 ** 63 - 1), 65]), ("uint64_t", [2 ** 64 - 1]), ("float", [1.5, -0.25, 65.0]), ("double", [1e100, -2.5, 0.1]), ("long double", [3.0]),
+            # every character type is an 8-bit rep in its own right (plain char is a third distinct type), and the other spellings of the wider integers
+            ("char", [65, 35, 0, 127]), ("signed char", [65, -1, -128]), ("unsigned char", [65, 200, 255]), ("short", [-65, 66]), ("unsigned short", [65]), ("long", [-65]), ("unsigned long", [65]),
+            ("long long", [65, -(2 ** 62)]), ("unsigned long long", [2 ** 64 - 1, 65])]
+    FLOATS = ("float", "double", "long double")
     ns = 0
     for rep, vs in reps:
         for v in vs:
-            lit = f"({rep}){v}" + ("" if "int" not in rep else ("ull" if v > 2 ** 63 - 1 else "ll"))
+            lit = f"({rep}){v}" + ("" if rep in FLOATS else ("ull" if v > 2 ** 63 - 1 else "ll"))
             L.append(f'  st("{rep}", au::meters(({rep}){lit}), (long double)(({rep}){lit}));')
             L.append(f'  st("{rep}", (au::meters / au::second)(({rep}){lit}), (long double)(({rep}){lit}));')
-            ns += 2
+            L.append(f'  st("pt:{rep}", au::meters_pt(({rep}){lit}), (long double)(({rep}){lit}));')
+            ns += 3
     L += ['  printf("{\\"ev\\":\\"done\\"}\\n");', "}"]
     d = core.subdir("c18i")
     src = core.write(os.path.join(d, "itoa.cc"), "\n".join(L))
@@ -473,13 +478,18 @@ def run_itoa_and_stream(chk, tier):
         elif ev["ev"] == "stream":
             nb += 1
             out = ev["out"]
+            is_pt = ev["rep"].startswith("pt:")
+            ev["rep"] = ev["rep"][3:] if is_pt else ev["rep"]
+            if is_pt:  # documented form "@(<value> <label>)"
+                ok_wrap = out.startswith("@(") and out.endswith(")")
+                out = out[2:-1] if ok_wrap else "? ?"
             num, _, lab = out.partition(" ")
             ok = lab in ("m", "m / s")
             try:
                 ok = ok and abs(float(num) - float(ev["v"])) <= abs(float(ev["v"])) * 1e-5
             except ValueError:
                 ok = False
-            if "int" in ev["rep"]:
+            if ev["rep"] not in ("float", "double", "long double"):
                 ok = ok and num == str(int(float(ev["v"]))) if abs(float(ev["v"])) < 2 ** 53 else ok and num.lstrip("-").isdigit()
             if not ok:
                 chk.violation(f'C18|stream|rep={ev["rep"]}|v={ev["v"]}', msg=f'operator<< of a {ev["rep"]} quantity with value {ev["v"]} printed "{out}"')
